@@ -112,7 +112,9 @@ def check_isometry_forms(prog, rep):
                 rep.instance('FORM-isometry', {'function': q, 'call': unparse(c)[:70],
                                                'producer': '%s[%d]' % prod, 'form': formv})
                 want = EXPECT[prod]
-                if formv != want:
+                # form=None records "unknown": conversions of such a site raise instead of
+                # rescaling; it never claims a wrong form
+                if formv is not None and formv != want:
                     rep.violation(
                         'FORM-isometry', m, q, 'form-of-%s%d:%s' % (prod[0], prod[1], formv),
                         '`%s` stores output %d of %s — a %s isometry, i.e. canonical form %r — but '
